@@ -1048,9 +1048,9 @@ class Interp:
                 a, b = args
                 if not (isinstance(a, str) and isinstance(b, str)):
                     raise Unsupported("replace with symbolic args")
-                if len(a) != 1:
-                    raise Unsupported("replace of a multi-character pattern")
-                return core.replace_char(s, a, b)
+                if len(a) == 0:
+                    raise Unsupported("replace of the empty pattern")
+                return core.replace_str(s, a, b)
             if name == "format":
                 raise Unsupported("str.format")
             if name == "split":
